@@ -220,10 +220,19 @@ class Gen:
             self.globals.append(v)
             self.tag("global-pointer")
         lines.append("")
+        # functions taking / returning structs by value
+        self.sfuncs = []
+        self.sfunc_lines = []
+        self.sfunc_at = len(lines)
+        if cfg["structs"] and cfg.get("struct_by_value", True):
+            for st in self.structs:
+                if r.random() < 0.6:
+                    self.struct_functions(st)
         nf = r.randint(1, cfg["nfuncs"])
         for i in range(nf):
             lines += self.function(i)
             lines.append("")
+        lines = lines[:self.sfunc_at] + self.sfunc_lines + lines[self.sfunc_at:]
         lines += self.entry()
         info = {"tags": sorted(self.tags), "n_statements": self.nstmt}
         return "\n".join(lines) + "\n", info
@@ -279,6 +288,53 @@ class Gen:
         f.rec = rec
         self.funcs.append(f)
         return lines
+
+    def struct_functions(self, st):
+        """mkS(a, b): builds a struct from scalars and returns it by value;
+        useS(s, k): takes one by value, modifies its own copy, returns a digest."""
+        r = self.r
+        mk = "mk%s" % st.name
+        f = Func(mk, None, [Var("a", T_LONG), Var("b", T_INT)], False)
+        sc = Scope(self, f, f.params)
+        L = ["static struct %s %s(long a, int b) {" % (st.name, mk), "  struct %s r;" % st.name]
+        for fn, ft, al in st.fields:
+            if al:
+                for k in range(al):
+                    L.append("  r.%s[%d] = %s;" % (fn, k, self.expr(sc, ft, 1)))
+            else:
+                L.append("  r.%s = %s;" % (fn, self.expr(sc, ft, 1)))
+        L += ["  return r;", "}", ""]
+        use = "use%s" % st.name
+        f2 = Func(use, T_LONG, [Var("k", T_INT)], False)
+        sv = Var("s", None, "struct", struct=st)
+        sc2 = Scope(self, f2, [Var("k", T_INT), sv])
+        L.append("static long %s(struct %s s, int k) {" % (use, st.name))
+        body = []
+        for _ in range(r.randint(1, 3)):
+            lv, t = self.access(sc2, sv)
+            body.append("%s = %s;" % (lv, self.expr(sc2, t, 2)))
+        body.append("return %s;" % self.expr(sc2, T_LONG, 2))
+        L += ["  " + b for b in body] + ["}", ""]
+        self.sfunc_lines += L
+        self.sfuncs.append((st, mk, use))
+        self.tag("struct-by-value")
+
+    def s_structcall(self, sc, out):
+        r = self.r
+        st, mk, use = r.choice(self.sfuncs)
+        gs = [v for v in sc.visible() if v.kind == "struct" and v.struct is st]
+        self.flush(sc, out)
+        k = r.random()
+        if k < 0.4 or not gs:
+            v = Var(self.name("s"), None, "struct", struct=st)
+            out.append("struct %s %s = %s(%s, %s);" % (st.name, v.name, mk, self.expr(sc, T_LONG, 1), self.expr(sc, T_INT, 1)))
+            sc.locals.append(v)
+        elif k < 0.6:
+            out.append("%s = %s(%s, %s);" % (r.choice(gs).name, mk, self.expr(sc, T_LONG, 1), self.expr(sc, T_INT, 1)))
+        else:
+            v = Var(self.name("u"), T_LONG)
+            out.append("long %s = %s(%s, %s);" % (v.name, use, r.choice(gs).name, self.expr(sc, T_INT, 1)))
+            sc.locals.append(v)
 
     def entry(self):
         r = self.r
@@ -337,6 +393,8 @@ class Gen:
                 self.s_switch(sc, out, sub, depth)
             elif k < 0.92 and self.cfg["pointers"]:
                 self.s_pointer(sc, out)
+            elif k < 0.935 and self.cfg["structs"] and getattr(self, "sfuncs", None) and sc.func.name not in ("",) and not sc.func.name.startswith(("mk", "use")):
+                self.s_structcall(sc, out)
             elif k < 0.95 and self.cfg["structs"] and self.structs:
                 self.s_struct(sc, out)
             elif k < 0.97 and self.cfg["goto"] and depth < 3 and budget >= 1:
